@@ -438,7 +438,8 @@ def dom_sim_behaviours(seed):
     """thorough tier: the exhaustive space of length-4 histories no longer finishes (3.6 million states with two slots already), so the
     faithful model is run in TLC's simulation mode: random histories of length 7 on three slots, every invariant evaluated on every state"""
     d = wdir("beh")
-    path = os.path.join(d, "dom_sim_%d.ndjson" % seed)
+    nsim = 150000
+    path = os.path.join(d, "dom_sim_%d_%d.ndjson" % (seed, nsim))
     stats_p = path + ".stats"
     src = [os.path.join(vlib.TLA, f) for f in ("Dom.tla", "MC_Dom.tla", "MC_Dom.cfg")]
     stamp = "".join(str(os.path.getmtime(f)) for f in src)
@@ -447,7 +448,7 @@ def dom_sim_behaviours(seed):
         if st.get("stamp") == stamp:
             st["reused_from_cache"] = True
             return path, st
-    st = tlc_mc("MC_Dom", {"MaxOps": 7, "MaxId": 14, "EmitOn": "TRUE"}, emit_path=path, tag="MC_Dom_sim", simulate=(150000, 8, 1000 + seed), timeout=3000, workers=8)
+    st = tlc_mc("MC_Dom", {"MaxOps": 7, "MaxId": 14, "EmitOn": "TRUE"}, emit_path=path, tag="MC_Dom_sim", simulate=(nsim, 8, 1000 + seed), timeout=3000, workers=8)
     st["stamp"] = stamp
     st.pop("log_tail", None)
     json.dump(st, open(stats_p, "w"))
